@@ -26,6 +26,10 @@ class Node:
     def minlen(self):
         return 0
 
+    def maxlen(self, cap=40):
+        """Upper bound of the generated length when open-ended repeats are capped at max(cap, lo)."""
+        return max(1, self.minlen())
+
     def unsupported_kinds(self):
         return set()
 
@@ -161,6 +165,9 @@ class Seq(Node):
     def minlen(self):
         return sum(p.minlen() for p in self.parts)
 
+    def maxlen(self, cap=40):
+        return sum(p.maxlen(cap) for p in self.parts)
+
     def shape(self):
         return ("seq", tuple(p.shape() for p in self.parts))
 
@@ -185,6 +192,9 @@ class Alt(Node):
 
     def minlen(self):
         return min(b.minlen() for b in self.branches)
+
+    def maxlen(self, cap=40):
+        return max(b.maxlen(cap) for b in self.branches)
 
     def shape(self):
         return ("alt", tuple(b.shape() for b in self.branches))
@@ -213,6 +223,9 @@ class Group(Node):
     def minlen(self):
         return self.inner.minlen()
 
+    def maxlen(self, cap=40):
+        return self.inner.maxlen(cap)
+
     def shape(self):
         return (self.kind, self.inner.shape())
 
@@ -239,6 +252,10 @@ class Repeat(Node):
 
     def minlen(self):
         return self.lo * self.atom.minlen()
+
+    def maxlen(self, cap=40):
+        hi = self.hi if self.hi is not None else max(cap, self.lo)
+        return hi * self.atom.maxlen(cap)
 
     def shape(self):
         q = self.text if self.text in "*+?" else ("{m}" if "," not in self.text else
@@ -330,10 +347,24 @@ def gen_atom(rng, depth, names):
     return Group(inner, how, name)
 
 
+def has_open(node):
+    if isinstance(node, Repeat):
+        return node.hi is None or has_open(node.atom)
+    if isinstance(node, Group):
+        return has_open(node.inner)
+    if isinstance(node, Seq):
+        return any(has_open(p) for p in node.parts)
+    if isinstance(node, Alt):
+        return any(has_open(p) for p in node.branches)
+    return False
+
+
 def gen_quant(rng, atom, state):
     r = rng.random()
     lazy = rng.random() < 0.25
-    open_ok = state["open"] < 2
+    # no open-ended repeat around something that already contains one (catastrophic backtracking in the
+    # *oracle* re.fullmatch, not in d42), and at most two open-ended repeats per sequence
+    open_ok = state["open"] < 2 and not has_open(atom)
     if r < 0.2 and open_ok:
         state["open"] += 1
         return Repeat(atom, 0, None, lazy, "*")
